@@ -393,6 +393,17 @@ func cmdEntropy(args []string) int {
 				}
 			}
 		}
+		// chunks of 64 KiB and more: the RANGE coder lowers its log range to the chunk length, so only these reach the largest ones
+		for lr := uint(8); lr <= 16; lr++ {
+			for ci, chunk := range []uint{65536, 131072} {
+				if !*thorough && (int(lr)+ci)%2 == 1 && lr < 15 {
+					continue
+				}
+				addp("RANGE", 66000+ci*70000, chunk, lr)
+				addp("ANS0", 66000+ci*70000, chunk, lr)
+				addp("ANS1", 66000+ci*70000, chunk, lr)
+			}
+		}
 		for _, chunk := range []uint{1024, 2048, 4096, 16384, 65536} {
 			for _, l := range []int{100, 1023, 1024, 1025, 5000, 70000} {
 				addp("HUFFMAN", l, min(chunk, 16384))
